@@ -163,6 +163,11 @@ def judge(w, tap, scenario, reach):
         a, b = ch['tsi'][0], ch['tsr'][0]
         tag = {'kind': 'initial' if ch['initial'] else ('rekey' if ch['rekey_of'] else 'additional')}
         reach['children_judged'] = reach.get('children_judged', 0) + 1
+        # 0. a selector whose range ends before it starts denotes no packet: it is inside nothing, such a request or answer is refused
+        for nm, t_ in (('TSi', a), ('TSr', b)):
+            if t_['saddr'] > t_['eaddr'] or t_['sport'] > t_['eport']:
+                return V('inverted_selector_accepted', dict(tag, which=nm, what='addresses' if t_['saddr'] > t_['eaddr'] else 'ports'),
+                         f'CHILD_SA {ch["spi_init"].hex()}: negotiated with {nm} {ts_set(t_)}, a range that ends before it starts')
         # 1. contained in what the initiator proposed
         if not any(ts_subset(a, x) for x in ch['tsi_offer']) or not any(ts_subset(b, x) for x in ch['tsr_offer']):
             return V('selectors_not_inside_the_offer', tag, f'CHILD_SA {ch["spi_init"].hex()}: chosen TSi {ts_set(a)} / TSr {ts_set(b)} are not inside the '
